@@ -208,7 +208,7 @@ def interval_certify(samples):
         lines.append("Proof. integral with (i_fuel 400, i_degree 12, i_prec 60). Qed.")
     d = os.path.join(C.BUILD, "interval")
     os.makedirs(d, exist_ok=True)
-    path = os.path.join(d, "C10_perimeter.v")
+    path = os.path.join(d, "C10_perimeter_%d.v" % os.getpid())      # (per process: concurrent runs must not share the file)
     open(path, "w").write("\n".join(lines) + "\n")
     p = subprocess.run(["timeout", "900", "coqc", path], capture_output=True, text=True, cwd=d)
     return len(samples), p.returncode == 0, p.stdout + p.stderr
